@@ -8,6 +8,36 @@ use vh_common::{Args, Report};
 
 fn main() {
     let args = Args::parse();
+    if args.prop == "probe-text" {
+        // vh-scope probe-text --lua <text>: name tokens, what the reference index records, rename edits
+        use emmylua_parser::{LuaAstNode, LuaTokenKind};
+        let text = args.extra.get("lua").expect("--lua").replace("\\n", "\n");
+        let mut ws = real::Ws::new();
+        let fid = ws.load(&text);
+        let db = ws.ws.analysis.compilation.get_db();
+        let tree = db.get_vfs().get_syntax_tree(&fid).unwrap();
+        let root = tree.get_chunk_node();
+        if args.extra.contains_key("tree") {
+            println!("{:#?}", root.syntax());
+        }
+        println!("errors: {:?}", tree.get_errors().len());
+        let mut decls: Vec<_> = db.get_decl_index().get_decl_tree(&fid).unwrap().get_decls().values()
+            .map(|d| (u32::from(d.get_position()), d.get_name().to_string(), d.is_local(), format!("{:?}", d.get_range()))).collect();
+        decls.sort();
+        println!("decls: {decls:?}");
+        for t in root.syntax().descendants_with_tokens().filter_map(|x| x.into_token()) {
+            if t.kind() == LuaTokenKind::TkName.into() || t.kind() == LuaTokenKind::TkDots.into() {
+                let d = db.get_reference_index().get_var_reference_decl(&fid, t.text_range());
+                let off = u32::from(t.text_range().start()) as usize;
+                let before = &text[..off];
+                let pos = lsp_types::Position { line: before.matches('\n').count() as u32, character: (off - before.rfind('\n').map(|i| i + 1).unwrap_or(0)) as u32 };
+                let ren = emmylua_ls::verif_scope::rename(&ws.ws.analysis, fid, pos, "NEW".into())
+                    .map(|we| we.changes.into_iter().flatten().flat_map(|(_, es)| es.into_iter().map(|e| format!("{}:{}-{}:{}", e.range.start.line, e.range.start.character, e.range.end.line, e.range.end.character))).collect::<Vec<_>>());
+                println!("{} @{} -> {:?} rename {:?}", t.text(), off, d.map(|d| u32::from(d.position)), ren);
+            }
+        }
+        return;
+    }
     if args.prop == "probe" {
         // vh-scope probe --program <postfix>   : print the rendered text and the real resolution
         let enc = args.extra.get("program").expect("--program");
